@@ -30,8 +30,19 @@ def used(eng, what):
     eng.assumed.add("library model: " + what)
 
 
+_CUR = [None]           # state in which array definitions are recorded (set by Engine.ev)
+LAMBDA_MODE = [False]   # True: z3 Lambda terms; False: fresh array constant + pointwise defining axiom
+
+
 def lam(vars_, body):
-    return z3.Lambda(vars_, body)
+    """array defined pointwise: A[vars] == body"""
+    if LAMBDA_MODE[0] or _CUR[0] is None:
+        return z3.Lambda(vars_, body)
+    srt = z3.ArraySort(*([v.sort() for v in vars_] + [body.sort()]))
+    a = z3.Const(fresh_name('arr'), srt)
+    sel = z3.Select(a, *vars_)
+    _CUR[0].pc.append(z3.ForAll(vars_, sel == body, patterns=[sel]))
+    return a
 
 
 def zsort(ek):
@@ -161,16 +172,39 @@ def m_isinstance(eng, st, args, kw, node):
     raise Unsupported("isinstance against " + str(tname))
 
 
-def psum(eng, st):
-    """psum(a, n) = a[0] + ... + a[n-1]  (uninterpreted, two defining axioms added once per path)"""
+def psum(eng, st, arr=None, length=None):
+    """psum(a, n) = a[0] + ... + a[n-1]: uninterpreted, with the two defining equations instantiated for
+    every array term it is applied to (no quantification over arrays), plus two lemma instances proved by
+    induction in lemmas/psum.py (L-psum-lower: if a[s] >= c on [0,N) then psum(a,m2)-psum(a,m1) >= c*(m2-m1))."""
     f = eng.uf('psum', z3.ArraySort(I, I), I, I)
-    if 'axioms:psum' not in st.ghost:
-        st.ghost['axioms:psum'] = True
-        a = z3.Const('psum_a', z3.ArraySort(I, I))
-        n = z3.Int('psum_n')
-        st.pc.append(z3.ForAll([a], f(a, 0) == 0))
-        st.pc.append(z3.ForAll([a, n], z3.Implies(n > 0, f(a, n) == f(a, n - 1) + z3.Select(a, n - 1)),
-                               patterns=[f(a, n)]))
+    if arr is None:
+        return f
+    key = 'axioms:psum:%d' % arr.get_id()
+    if key not in st.ghost:
+        st.ghost[key] = True
+        n, m = z3.Int(fresh_name('pn')), z3.Int(fresh_name('pm'))
+        st.pc.append(f(arr, 0) == 0)
+        # defining equation, stated between two *existing* psum terms (no matching loop):
+        #   n == m+1 and m >= 0  ==>  psum(a,n) == psum(a,m) + a[m]
+        body = z3.Implies(z3.And(n == m + 1, m >= 0), f(arr, n) == f(arr, m) + z3.Select(arr, m))
+        try:
+            st.pc.append(z3.ForAll([m, n], body, patterns=[z3.MultiPattern(f(arr, m), f(arr, n))]))
+        except z3.Z3Exception:
+            st.pc.append(z3.ForAll([m, n], body))
+        if length is not None:
+            eng.assumed.add("lemma (proved by induction in lemmas/): a[s] >= c on [0,N) ==> "
+                            "psum(a,m2) - psum(a,m1) >= c*(m2-m1) for 0<=m1<=m2<=N, c in {0,1}")
+            for c in (0, 1):
+                s_ = z3.Int(fresh_name('ps'))
+                m1, m2 = z3.Int(fresh_name('pm')), z3.Int(fresh_name('pm'))
+                prem = z3.ForAll([s_], z3.Implies(z3.And(0 <= s_, s_ < length), z3.Select(arr, s_) >= c))
+                cbody = z3.Implies(z3.And(0 <= m1, m1 <= m2, m2 <= length),
+                                   f(arr, m2) - f(arr, m1) >= c * (m2 - m1))
+                try:
+                    concl = z3.ForAll([m1, m2], cbody, patterns=[z3.MultiPattern(f(arr, m1), f(arr, m2))])
+                except z3.Z3Exception:
+                    concl = z3.ForAll([m1, m2], cbody)
+                st.pc.append(z3.Implies(prem, concl))
     return f
 
 
@@ -179,8 +213,9 @@ def m_sum(eng, st, args, kw, node):
     v = args[0]
     if isinstance(v.k, tuple) and v.k[0] == 'list' and v.k[1] == 'int':
         used(eng, "sum(list of int) = psum(list, len) (left-to-right integer sum)")
-        f = psum(eng, st)
-        return vint(f(eng.list_arr(st, v), eng.list_len(st, v)))
+        a, n = eng.list_arr(st, v), eng.list_len(st, v)
+        f = psum(eng, st, a, n)
+        return vint(f(a, n))
     raise Unsupported("sum of %r" % (v.k,))
 
 
@@ -190,10 +225,10 @@ def m_accumulate(eng, st, args, kw, node):
     if not (isinstance(v.k, tuple) and v.k[0] == 'list' and v.k[1] == 'int') or kw or len(args) != 1:
         raise Unsupported("accumulate of %r" % (v.k,))
     used(eng, "itertools.accumulate(list of int) yields the prefix sums psum(list, i+1)")
-    f = psum(eng, st)
-    a = eng.list_arr(st, v)
+    a, n = eng.list_arr(st, v), eng.list_len(st, v)
+    f = psum(eng, st, a, n)
     i = z3.Int(fresh_name('i'))
-    return eng.mk_list(st, 'int', eng.list_len(st, v), lam([i], f(a, i + 1)))
+    return eng.mk_list(st, 'int', n, lam([i], f(a, i + 1)))
 
 
 @model('builtins.list')
@@ -760,6 +795,7 @@ def list_comp(eng, st, node):
     facts = [f for f in facts if not f.eq(z3.And(q >= 0, q < n))]
     if isinstance(ev.k, tuple) and ev.k[0] == 'pylist':
         raise Unsupported("comprehension of heterogeneous lists")
+    _CUR[0] = st
     res = eng.mk_list(st, ev.k, n, lam([q], eng.elem_term(ev)))
     if facts:
         st.assume(z3.ForAll([q], z3.Implies(z3.And(q >= 0, q < n), z3.And(*facts))))
